@@ -36,7 +36,7 @@ def mc_cfg(direction, maxitems, maxchart, simkeys, chartkeys, valcodes, behkinds
 def configs(direction, quick):
     if direction == "ssc2sm":
         if quick:
-            return [("a", (direction, 2, 1, ["VERSION", "COMBOS", "WARPS"], ["CHARTNAME", "COMBOS", "MUSIC"], ["empty", "padded", "other"], ["gameplay", "metadata"])),
+            return [("a", (direction, 2, 1, ["VERSION", "COMBOS", "WARPS"], ["CHARTNAME", "COMBOS", "MUSIC"], ["empty", "padded", "other", "warps0"], ["gameplay", "metadata"])),
                     ("after-notes", (direction, 1, 1, ["COMBOS"], ["CHARTNAME", "COMBOS", "BPMS"], ["default", "other"], ["gameplay", "timing"], False))]
         return [("a", (direction, 2, 1, ["VERSION", "ORIGIN", "JACKET", "COMBOS", "WARPS"], ["CHARTNAME", "COMBOS", "BPMS", "MUSIC"],
                        ["empty", "default", "padded", "other"], ["metadata", "gameplay", "timing"])),
@@ -168,7 +168,7 @@ def gen_ssc(rng, corp):
                 sf[k] = v
     w = rng.random()
     if w < 0.15:
-        sf["WARPS"] = rng.choice(["4.000=2.000", "1=1,\n8=0.5"])
+        sf["WARPS"] = rng.choice(["4.000=2.000", "1=1,\n8=0.5", "16.000=0.000", "2=0,\n4=0"])
     elif w < 0.3:
         sf["WARPS"] = ""
     elif w < 0.4:
